@@ -201,6 +201,23 @@ func runC06(env *lib.Env, rep *lib.Report) {
 									q = base
 									q.items = []qItem{{kind: "col", col: qRef{f.names[ti], "k"}}}
 									r.check(qw, &q, "join/name-hidden-by-alias", "")
+									// ... also for a column whose bare name occurs only once in the whole join (a qualifier that
+									// names no table of the join is an error, not something to be ignored)
+									uniq := map[string]string{"t": "s", "u": "q", "v": "r"}[f.names[ti]]
+									occurs := 0
+									for _, nm := range f.names {
+										if nm == f.names[ti] {
+											occurs++
+										}
+									}
+									if occurs == 1 {
+										q = base
+										q.items = []qItem{{kind: "col", col: qRef{f.names[ti], uniq}}}
+										r.check(qw, &q, "join/name-hidden-by-alias", "")
+										q = base
+										q.items = []qItem{{kind: "col", col: qRef{"nosuch", uniq}}}
+										r.check(qw, &q, "join/unknown-qualifier", "")
+									}
 								}
 							}
 						}
